@@ -17,6 +17,7 @@ type SpecEnv struct {
 	run   *UnitRun
 	st    *State // state in which program variables / heap are read
 	old   *State // state for old(...)
+	pre   *State // state at the head of the loop whose clause is being evaluated, for pre(...)
 	bound map[string]Val
 	// resolve a free program-variable name (falls back to st.names)
 	resolve func(name string, st *State) (Val, bool)
@@ -665,8 +666,16 @@ func (e *SpecEnv) evalCall(x *ast.CallExpr) Val {
 			ts = append(ts, v.T)
 		}
 		return boolV(fmt.Sprintf("(! %s :pattern (%s))", b, strings.Join(ts, " ")))
-	case "old":
+	case "old", "pre":
 		oe := e.inOld()
+		if name == "pre" {
+			if e.pre == nil {
+				specFail("pre(...) is only available in loop clauses")
+			}
+			n := *e
+			n.st = e.pre
+			oe = &n
+		}
 		v := oe.eval(x.Args[0])
 		if v.K == KSlice && v.S.Obj != nil && oe.st != nil {
 			// a slice value does not remember the state it was read in (its contents are looked up by backing object):
@@ -825,6 +834,12 @@ func (r *UnitRun) needPredicate(m *Macro) {
 			bv.Go = nil
 			bound[p] = bv
 		}
+	}
+	if id, ok := m.Body.(*ast.Ident); ok && id.Name == "uninterpreted" {
+		// a ghost relation without a definition (constrained only by named axioms)
+		r.needOrd = append(r.needOrd, key)
+		r.extra[key] = fmt.Sprintf("(declare-fun P_%s (%s) Bool)", m.Name, strings.Join(m.Sorts, " "))
+		return
 	}
 	env := &SpecEnv{run: r, st: nil, bound: bound}
 	body := env.boolOf(m.Body)
